@@ -12,7 +12,17 @@ CLAIMED = {
  "C14": dict(technique="static analysis: lock-order graph with instance identity (self-edge on distinct IPFSLog instances), dominance of the heads read over the entries read in Join",
    text="Decides two necessary conditions of deadlock-free, snapshot-consistent merging from a live log on every path: no call chain acquires another log's lock while one log lock is held, and the source is read once per kind with heads before entries. It does not decide that the merged sets equal a real instant of the source.",
    note="Trusted: go/types, go/cfg, CHA restricted to first-party implementers. Assumes the source log is append-only between the two reads.", ref="§4 C14"),
+ "C15": dict(technique="static analysis: linear bound prover over go/ssa path facts (Fourier-Motzkin) for amount-tainted slices, must-pass-through close(output) on success returns, may-reach rule for failed bound lookups",
+   text="Decides for all values of the amount and every combination of bounds, on every path of Iterator: amount-tainted slice bounds are in range, close(output) precedes every success return, a failed bound lookup only reaches error returns, no send under the log lock. It does not decide which entries are emitted.",
+   note="Trusted: go/ssa, go/cfg, the prover in checker/lenprove.go (controls run on every check). Integer overflow ignored.", ref="§4 C15"),
+ "C16": dict(technique="static analysis: linear bound prover over go/ssa path facts for the size-tainted slice; SSA backward data slice relating the stored index and heads to one suffix slice",
+   text="Decides for all values of Join's size argument that the truncating slice is in range and that the truncated index and heads derive from the same suffix slice of the post-merge linearisation. It does not decide that the suffix is the newest n entries for every DAG.",
+   note="Trusted: go/ssa, the prover in checker/lenprove.go. Integer overflow ignored.", ref="§4 C16"),
+ "C10": dict(technique="static analysis: linear length prover over go/ssa path facts with summaries of the slice helpers (Fourier-Motzkin), SSA dominance for sort-before-trim, suffix-only analysis of the trim helper",
+   text="Decides for all values of the caller's Length and every fetch result that three loaders hand on at most max(Length, k) entries on every path with a non-negative limit, that the trimmed list is the ascending-sorted one and the trim keeps a suffix, and that the slice helpers never go out of range. It does not decide which entries the fetcher admits nor exactness.",
+   note="Trusted: go/ssa, checker/lenprove.go (controls on every run). fromEntry's recombination is listed, not armed. Integer overflow ignored.", ref="§4 C10"),
 }
+# -- add further claimed properties as CLAIMED["Cxx"] = dict(...) below this line --
 
 NOT_APPLICABLE = {
  "C02": "exactness of the head set is set algebra over run-time hashes for every DAG; no checkable structural necessary condition that is not already claimed under C06/C13/C14 (DESIGN §4 C02)",
